@@ -112,7 +112,8 @@ def r1(ctx):
             n_pinned += 1
             ctx.holds("C02.R1", de, "verify key := pinned key", "the configured server public key verifies the hello")
         else:
-            lits = node_lits(cfg, nid, cc)
+            from .common import node_lits_sym
+            lits = node_lits_sym(de, cfg, nid, cc)
             ok = not satisfiable(lits + [Lit("set", "kwargs['server_public_key']", frozenset([repr(None)]), False, "")])
             ctx.check(ok, "C02.R1", de, "verify key := %s only when no key is pinned" % txt,
                       "a key carried in the message may verify it only when the client has no pinned key",
